@@ -34,7 +34,9 @@ def quartersOf (x : Sexp) : Option Int := match cellOf x with
 /-- the value of one `dt(...)` call; `none` = not covered by the model -/
 def eval (op : String) (args : List Sexp) : Option (Res Int) := do
   match op, args with
-  | "num", [x] =>
+  -- `npnum kind x`: the same number handed over as a numpy scalar (np.int64 / np.int32 / np.float64 / np.float32 of a value the
+  -- type holds exactly): a number is a number, `is_num` admits these types (defect C04-D5)
+  | "num", [x] | "npnum", [_, x] =>
       match num2dtQ (← quartersOf x) with
       | .abs r => pure r
       | .rel _ => none
@@ -76,7 +78,7 @@ def reply : Res Int → String
 def handle1 (op : String) (args : List Sexp) : Option String := do
   match op, args with
   | "dt2str", [t] => pure ("ok " ++ (Cell.str (dt2str (← timeOf t))).render)
-  | "numrel", [x] =>
+  | "numrel", [x] | "npnumrel", [_, x] =>
       match num2dtQ (← quartersOf x) with
       | .rel us => pure s!"ok I:{us}"
       | .abs r => pure ("ok (L " ++ reply r ++ ")")
